@@ -267,7 +267,7 @@ void partitionCase(size_t idx) {
 }
 
 struct Plan { size_t randomSeg; size_t parts; int exhN; };
-Plan plan() { return g_cfg.tier ? Plan{3000, 1200, 5} : Plan{300, 120, 4}; }
+Plan plan() { return g_cfg.tier ? Plan{24000, 8000, 6} : Plan{300, 120, 4}; }
 
 // exhaustive: n triangles, labels from {-1,0,1,2}
 size_t exhCases(int maxN) { size_t c = 0; for (int n = 0; n <= maxN; n++) c += 1; return c * 3; }
@@ -330,7 +330,7 @@ void run(size_t idx) {
 }
 
 MonReg reg({"C17", "exploration",
-			"FO4/FO76 BSSubIndexTriShape built through the API. Exhaustive: 0..4 (quick) / 0..5 (thorough) triangles x every label list over {-1,0,1,2} x three segment structures "
+			"FO4/FO76 BSSubIndexTriShape built through the API. Exhaustive: 0..4 (quick) / 0..6 (thorough) triangles x every label list over {-1,0,1,2} x three segment structures "
 			"(3 flat segments, 1 segment with 2 sub-segments, 2 segments the second with a sub-segment, permuted ids). Random: 3..62 vertices, 0..200 triangles, 1..5 segments with 0..3 "
 			"sub-segments, permuted ids, label modes (all assigned, 25% unassigned, all in first, all in last, skewed), user slots below/above 30, extra data; half of them followed by a "
 			"random vertex deletion. Partition labels: OB/FO3/SK/SSE skinned shapes, 1..4 partitions, 25% unassigned. Oracle after set, after set(get()), after save+reload and after "
